@@ -2,9 +2,8 @@
 //!
 //! Oracle: `num_bigint::BigUint` product, split / truncated to the documented shape of each form.
 
-use crypto_bigint::{BoxedUint, Checked, CheckedMul, Concat, Limb, Uint, WideningMul, Wrapping, WrappingMul, Zero};
+use crypto_bigint::{BoxedUint, Checked, CheckedMul, Concat, Limb, Uint, WideningMul, Wrapping, WrappingMul};
 use num_bigint::BigUint;
-use num_traits::{One, Zero as _};
 use vmodel::gen;
 use vmodel::*;
 
